@@ -301,6 +301,12 @@ def run_read(case, out):
         ok, r1 = call(out, "Starfile.read(data_id)", lambda: starfileio.Starfile.read("t.star", data_id=len(ref) - 1))
         if ok:
             out.check(r1[1] == ref[-1]["spec"] and list(r1[0].columns) == ref[-1]["labels"], "read:data_id_wrong_block", r1[1])
+        ok, r2 = call(out, "Starfile.read(data_id=-1)", lambda: starfileio.Starfile.read("t.star", data_id=-1))
+        if ok:
+            out.check(r2[1] == ref[-1]["spec"] and list(r2[0].columns) == ref[-1]["labels"], "read:negative_data_id_not_counted_from_the_end", r2[1])
+        ok, r3 = call(out, "Starfile.read(data_id=0)", lambda: starfileio.Starfile.read("t.star", data_id=0))
+        if ok:
+            out.check(r3[1] == ref[0]["spec"] and list(r3[0].columns) == ref[0]["labels"] and len(r3[0]) == len(ref[0]["rows"]), "read:data_id_wrong_block", r3[1])
 
 
 def run_roundtrip(case, out):
